@@ -463,8 +463,10 @@ def event_key(e):
 
 VOLTS = st.sampled_from([120.0, 208.0, 208.0, 240.0, 277.0])
 PHASES = st.sampled_from([30.0, -90.0, 150.0, 0.0, 180.0, -120.0])
-# includes lengths that do not divide an hour (7, 8, 45) and fractional ones (0.7, 2.5)
-PERIODS = st.sampled_from([1, 2.5, 5, 5, 7, 8, 15, 45, 60, 0.7])
+# includes lengths that do not divide an hour (7, 8, 45), fractional ones (0.7, 2.5), one whose
+# length in seconds is not a whole number (0.125 min = 7.5 s) and one whose float product with 60
+# falls just below an integer (2.05 * 60 = 122.99999999999999)
+PERIODS = st.sampled_from([1, 2.5, 5, 5, 7, 8, 15, 45, 60, 0.7, 2.05, 0.125])
 
 
 @st.composite
